@@ -229,6 +229,15 @@ class Check:
             self.tier = "quick"
         self.seed = int(os.environ.get("VERIF_SEED", "0") or 0)
         self.replay = a.replay
+        self.replay_payload = None
+        if a.replay:
+            # a replay re-runs the check with the seed and tier recorded in the file (every random choice derives from the seed)
+            # and reports whether the recorded input fails again
+            with open(a.replay) as fh:
+                self.replay_payload = json.load(fh)
+            self.seed = int(self.replay_payload.get("seed", self.seed))
+            if self.replay_payload.get("tier") in ("quick", "thorough"):
+                self.tier = self.replay_payload["tier"]
         self.no_build = a.no_build
         self.t0 = time.time()
         self.driver = Driver()
@@ -340,6 +349,13 @@ class Check:
             lines.append(f"VIOLATION property={self.pid} replay={path} no-failing-input-found")
             code = 1
         self._write_evidence(st, len(unknown) + (1 if (tie_broken and not unknown) else 0))
+        if self.replay_payload is not None:
+            want = (self.replay_payload.get("violation") or {}).get("input")
+            if want is not None:
+                again = any(json.dumps(f["input"], sort_keys=True, default=str) == json.dumps(want, sort_keys=True, default=str) for f in self.failures)
+                lines.append(f"REPLAY property={self.pid} recorded input {'fails again' if again else 'no longer fails'}: {json.dumps(want, default=str)[:200]}")
+            else:
+                lines.append(f"REPLAY property={self.pid} recorded a broken tie ({[b.get('what') for b in self.replay_payload.get('tie_broken', [])][:4]}); tie now {'broken' if tie_broken else 'intact'}")
         for l in lines:
             print(l)
         print(f"[{self.pid}] tier={self.tier} seed={self.seed} evaluations={self.evaluations} distinct={len(self.distinct)} "
